@@ -794,6 +794,10 @@ def round_trips(spec, tmpdir):
             return '-' if gobj is None else ('N' if gobj._weights is None else 'S')
 
         obs['wnone'] = {'before': wnone()}
+        # is `_weights` a NumPy scalar (np.generic or a 0-d array)?  The model's predicate Tree.isNpScalar: the one case in
+        # which the ASDF layer hands back something else (a Python number) than what was stored
+        _w = None if gobj is None else gobj._weights
+        obs['npscalar'] = '-' if gobj is None else ('T' if isinstance(_w, np.generic) or (isinstance(_w, np.ndarray) and _w.ndim == 0) else 'F')
 
         def expected_refusal(e):
             """An unregistered coordinate system cannot be read back (KeyError): the stated assumption, not a violation."""
@@ -1114,7 +1118,7 @@ def model_requests(spec, obs):
         for fmt, o in obs['fmt'].items():
             if o.get('raw') is None or o['w'] != 'ok':
                 continue
-            exp = 'ok w=ok file=%s r=%s out=%s' % (o['raw'], o['r'], o['out'] if o['r'] == 'ok' and o['out'] else '-')
+            exp = 'ok sc=%s w=ok file=%s r=%s out=%s' % (obs['npscalar'], o['raw'], o['r'], o['out'] if o['r'] == 'ok' and o['out'] else '-')
             fam = FAM_OF[fmt]
             reqs.append(('file-new:' + fmt, 'C16 file %s %s new %s' % (what, fam, tree), exp))
             if what == 'grid':
@@ -1226,14 +1230,55 @@ def check_spec(ctx, spec, tmpdir, batch):
 
 
 def check_ravel(ctx, rng, n, batch):
-    for _ in range(n):
+    """ravel/unravel with NumPy's checks: valid indices (the two maps are inverse), and indices NumPy refuses with
+    ValueError -- an entry out of bounds, an index of the wrong length, a flat index not below the size -- which the
+    model must refuse too (`InBounds`, `k < prod s`: the hypotheses of the index theorems)."""
+    def lst(v):
+        return '[' + ','.join(map(str, v)) + ']'
+
+    def np_ravel(idx, shape):
+        try:
+            return 'ok %d' % int(np.ravel_multi_index(tuple(idx), tuple(shape)))
+        except ValueError:
+            return 'err value'
+
+    def np_unravel(k, shape):
+        try:
+            return 'ok ' + lst(int(i) for i in np.unravel_index(k, tuple(shape)))
+        except ValueError:
+            return 'err value'
+
+    for j in range(n):
         shape = [int(rng.integers(1, 6)) for _ in range(int(rng.integers(1, 5)))]
-        k = int(rng.integers(0, int(np.prod(shape))))
+        size = int(np.prod(shape))
+        k = int(rng.integers(0, size))
         idx = [int(i) for i in np.unravel_index(k, shape)]
-        s = '[' + ','.join(map(str, shape)) + ']'
-        batch.append((None, 'unravel', 'C16 unravel %s %d' % (s, k), 'ok [' + ','.join(map(str, idx)) + ']'))
-        batch.append((None, 'ravel', 'C16 ravel %s [%s]' % (s, ','.join(map(str, idx))), 'ok %d' % int(np.ravel_multi_index(idx, shape))))
+        batch.append((None, 'unravel', 'C16 unravel %s %d' % (lst(shape), k), 'ok ' + lst(idx)))
+        batch.append((None, 'ravel', 'C16 ravel %s %s' % (lst(shape), lst(idx)), 'ok %d' % int(np.ravel_multi_index(idx, shape))))
         ctx.count('ravel/unravel')
+        c = j % 4
+        if c == 0:      # one entry at or beyond its bound
+            a = int(rng.integers(0, len(shape)))
+            bad = list(idx)
+            bad[a] = shape[a] + int(rng.integers(0, 3))
+            batch.append((None, 'ravel', 'C16 ravel %s %s' % (lst(shape), lst(bad)), np_ravel(bad, shape)))
+            ctx.count('ravel:entry-out-of-bounds')
+        elif c == 1:    # wrong length (shorter / longer)
+            bad = idx[:-1] if rng.integers(0, 2) else idx + [0]
+            batch.append((None, 'ravel', 'C16 ravel %s %s' % (lst(shape), lst(bad)), np_ravel(bad, shape)))
+            ctx.count('ravel:index-of-wrong-length')
+        elif c == 2:    # flat index at or beyond the size
+            kb = size + int(rng.integers(0, 3))
+            batch.append((None, 'unravel', 'C16 unravel %s %d' % (lst(shape), kb), np_unravel(kb, shape)))
+            ctx.count('unravel:flat-index-out-of-bounds')
+        else:           # a shape with an empty axis: nothing is in bounds
+            a = int(rng.integers(0, len(shape)))
+            sh = list(shape)
+            sh[a] = 0
+            z = [0] * len(sh)
+            batch.append((None, 'ravel', 'C16 ravel %s %s' % (lst(sh), lst(z)), np_ravel(z, sh)))
+            batch.append((None, 'unravel', 'C16 unravel %s 0' % lst(sh), np_unravel(0, sh)))
+            ctx.count('ravel/unravel:empty-axis')
 
 
 def run(ctx):
